@@ -171,6 +171,18 @@ fn run(rp: &Rp) -> i32 {
             let want = oracle::find(&pats, &hay, s, e, mk, an, ci);
             report("find", &got, &want, got != want)
         }
+        "find_after" => {
+            // a search over the same haystack object precedes the one that is compared
+            let (s, e) = (rp.usize("s"), rp.usize("e"));
+            let (s1, e1) = (rp.usize("s1"), rp.usize("e1"));
+            let ac = rp.ac();
+            let a1 = if rp.flag("a1") { Anchored::Yes } else { Anchored::No };
+            let first = tup(ac.try_find(Input::new(&hay[..]).span(s1..e1).anchored(a1)).expect("first try_find"));
+            let got = tup(ac.try_find(input(rp, &hay, s, e)).expect("try_find"));
+            let want = oracle::find(&pats, &hay, s, e, mk, an, ci);
+            println!("first search over the same haystack: span {}..{} -> {:?}", s1, e1, first);
+            report("find after another search over the same haystack", &got, &want, got != want)
+        }
         "iter2" => {
             let (s, e) = (rp.usize("s"), rp.usize("e"));
             let ac = rp.ac();
@@ -442,6 +454,8 @@ fn replay_stream_one(rp: &Rp, hay: &[u8]) -> i32 {
         calls: usize,
         fail_at: Option<usize>,
         failed: bool,
+        /// accept at most this many bytes per write call (short writes)
+        limit: usize,
     }
     impl std::io::Write for Rec {
         fn write(&mut self, buf: &[u8]) -> std::io::Result<usize> {
@@ -451,8 +465,9 @@ fn replay_stream_one(rp: &Rp, hay: &[u8]) -> i32 {
                 self.failed = true;
                 return Err(std::io::Error::new(std::io::ErrorKind::Other, "injected"));
             }
-            self.out.extend_from_slice(buf);
-            Ok(buf.len())
+            let n = buf.len().min(self.limit.max(1));
+            self.out.extend_from_slice(&buf[..n]);
+            Ok(n)
         }
         fn flush(&mut self) -> std::io::Result<()> {
             Ok(())
@@ -534,10 +549,12 @@ fn replay_stream_one(rp: &Rp, hay: &[u8]) -> i32 {
             }
             // ---- stream replacement, writer failing at every call (or never)
             let nw = if fault { want_out.len() + 3 } else { 0 };
-            for wf in std::iter::once(None).chain((0..nw).map(Some)) {
+            // (writer fault position, bytes accepted per write call)
+            let wplans: Vec<(Option<usize>, usize)> = [(None, usize::MAX), (None, 1)].into_iter().chain((0..nw).map(|k| (Some(k), usize::MAX))).collect();
+            for (wf, limit) in wplans {
                 let rfailed2 = std::rc::Rc::new(std::cell::Cell::new(false));
                 let rdr = Sched { data: hay, pos: 0, sizes: sizes.clone(), idx: 0, calls: 0, fail_at: fa, failed: rfailed2.clone() };
-                let mut wtr = Rec { out: vec![], calls: 0, fail_at: wf, failed: false };
+                let mut wtr = Rec { out: vec![], calls: 0, fail_at: wf, failed: false, limit };
                 let mut handed_ok = true;
                 let r = std::panic::catch_unwind(std::panic::AssertUnwindSafe(|| {
                     let res = ac.try_stream_replace_all_with(rdr, &mut wtr, |m, bytes, w| {
@@ -565,8 +582,8 @@ fn replay_stream_one(rp: &Rp, hay: &[u8]) -> i32 {
                             bad.push(format!("stream replacement failed without a fault (reads {:?})", sizes));
                         }
                         if ok && wtr.out != want_out && fa.is_none() {
-                            bad.push(format!("stream replacement wrote {:?}, in-memory replacement gives {:?} (reads {:?})",
-                                String::from_utf8_lossy(&wtr.out), String::from_utf8_lossy(&want_out), sizes));
+                            bad.push(format!("stream replacement wrote {:?}, in-memory replacement gives {:?} (reads {:?}, writer accepts {} byte(s) per call)",
+                                String::from_utf8_lossy(&wtr.out), String::from_utf8_lossy(&want_out), sizes, if limit == usize::MAX { "all".to_string() } else { limit.to_string() }));
                         }
                         if wtr.out.len() > want_out.len() || wtr.out[..] != want_out[..wtr.out.len()] {
                             bad.push(format!("bytes written {:?} are not a prefix of the fault-free output {:?} (reads {:?}, reader fault {:?}, writer fault {:?})",
